@@ -150,7 +150,7 @@ pub fn worker(id: &str, tier: Tier, base: u64, start: u64, stride: u64, total: u
         }
         let seed = scen::run_seed(base, idx);
         let plan = (prop.gen)(seed, idx, tier);
-        let r = run_one(&prop, &plan, dsim::Tape::search(seed));
+        let r = run_one(&prop, &plan, dsim::Tape::search(plan.seed));
         absorb(&mut agg, &plan, idx, &r);
         idx += stride;
     }
@@ -515,8 +515,8 @@ pub fn check(id: &str, tier: Tier) -> i32 {
         }
         minimised += 1;
         // regenerate, re-run in search mode to obtain the tape, minimise, write the replay file
-        let plan = (prop.gen)(f.seed, f.idx, tier);
-        let first = run_one(&prop, &plan, dsim::Tape::search(f.seed));
+        let plan = (prop.gen)(scen::run_seed(base, f.idx), f.idx, tier);
+        let first = run_one(&prop, &plan, dsim::Tape::search(plan.seed));
         let tape = first.out.world.tape.recorded.clone();
         if !first.co.violations.iter().any(|v| &v.signature == sig) {
             eprintln!("HARNESS ERROR: violation {} of seed {} did not recur in the parent process", sig, f.seed);
@@ -630,8 +630,8 @@ pub fn determinism(id: &str, tier: Tier, start: u64, count: u64) -> (bool, Vec<(
     for idx in start..start + count {
         let seed = scen::run_seed(base, idx);
         let plan = (prop.gen)(seed, idx, tier);
-        let a = run_one(&prop, &plan, dsim::Tape::search(seed));
-        let b = run_one(&prop, &plan, dsim::Tape::search(seed));
+        let a = run_one(&prop, &plan, dsim::Tape::search(plan.seed));
+        let b = run_one(&prop, &plan, dsim::Tape::search(plan.seed));
         let c = run_one(&prop, &plan, dsim::Tape::replay(a.out.world.tape.recorded.clone()));
         let (da, db, dc) = (a.out.world.hist_hash, b.out.world.hist_hash, c.out.world.hist_hash);
         let va: Vec<_> = a.co.violations.iter().map(|v| v.signature.clone()).collect();
